@@ -21,7 +21,7 @@ namespace NaijaVerif.Driver.PipeD
 open NaijaVerif NaijaVerif.Driver NaijaVerif.Driver.RunD NaijaVerif.Pipeline
 
 def cfg : Eval.RunCfg :=
-  { lookup := .dynamic, plan := none, panics := true,
+  { lookup := .dynamic, plan := none, panics := false,
     policy := { allow := false, caps := defaultCaps },
     runProc := runProcStub, std := stdOps, input := [] }
 
